@@ -499,7 +499,7 @@ func C01(r *vf.Run) {
 	ncpu := runtime.NumCPU()
 
 	if r.Phase("single-step") {
-		per := r.N(75, 5000) // per opcode x MX x stale
+		per := r.N(75, 20000) // per opcode x MX x stale
 		r.Parallel(ncpu, 256, func(wi, op int) {
 			w := newC01Worker(r)
 			g := r.Rand("single").Fork(uint64(op))
@@ -596,7 +596,7 @@ func C01(r *vf.Run) {
 		})
 	}
 	if r.Phase("programs") {
-		n := r.N(2400, 200000)
+		n := r.N(2400, 1200000)
 		chunks := 240
 		var steps int64
 		r.Parallel(ncpu, chunks, func(wi, ci int) {
@@ -626,7 +626,7 @@ func C01(r *vf.Run) {
 	}
 	if r.Phase("assembled") {
 		// programs assembled with the library's own Emitter (labels, branches, loops, data, width switches)
-		n := r.N(1600, 160000)
+		n := r.N(1600, 480000)
 		chunks := 160
 		r.Parallel(ncpu, chunks, func(wi, ci int) {
 			w := newC01Worker(r)
